@@ -686,13 +686,17 @@ class LiteralUnmarshaller(AbstractUnmarshaller[LiteralT], tp.Generic[LiteralT]):
         self.values = inspection.args(t, evaluate=True)
 
     def __call__(self, val: tp.Any) -> LiteralT:
-        if val in self.values:
+        if self._ismember(val):
             return val
         decoded = serdes.load(val)
-        if decoded in self.values:
+        if self._ismember(decoded):
             return decoded  # type: ignore[return-value]
 
         raise ValueError(f"{decoded!r} is not one of {self.values!r}")
+
+    def _ismember(self, val: tp.Any) -> bool:
+        # Literal members are matched by type and value: `True` is not `Literal[1]`.
+        return any(val.__class__ is v.__class__ and val == v for v in self.values)
 
 
 UnionT = tp.TypeVar("UnionT")
